@@ -133,7 +133,7 @@ func (s *Refspec) DstForRef(p string) string {
 			return dst
 		}
 		return ""
-	} else if p[:s.srcStarInd] != src[:s.srcStarInd] {
+	} else if len(p) < s.srcStarInd || p[:s.srcStarInd] != src[:s.srcStarInd] {
 		return ""
 	}
 	return dst[:s.dstStarInd] + p[s.srcStarInd:]
